@@ -1,0 +1,25 @@
+//go:build verif
+
+// Package vhook provides verification hook points. With the "verif" build tag
+// a verification harness can register a function that is called at each hook.
+package vhook
+
+import "sync/atomic"
+
+var hook atomic.Pointer[func(string)]
+
+// Set registers (or, with nil, clears) the function called at every hook point.
+func Set(f func(string)) {
+	if f == nil {
+		hook.Store(nil)
+		return
+	}
+	hook.Store(&f)
+}
+
+// Yield marks a point between two critical sections.
+func Yield(point string) {
+	if f := hook.Load(); f != nil {
+		(*f)(point)
+	}
+}
